@@ -256,7 +256,13 @@ func buildVMModel(c *Ctx) *vmModel {
 			m.issues = append(m.issues, "stack helper "+name+" has no declaration")
 			continue
 		}
-		d, err := m.helperDelta(fd)
+		d, err := stackHelperDelta(c, m.pkg.TypesInfo, fd)
+		if err != "" {
+			// the older syntactic summary, kept as a second opinion for shapes the interpreter declines
+			if d2, err2 := m.helperDelta(fd); err2 == "" {
+				d, err = d2, ""
+			}
+		}
 		if err != "" {
 			m.issues = append(m.issues, "stack helper "+name+": "+err)
 			continue
